@@ -1,0 +1,4 @@
+//! Verification facade for the RIB unit internals (feature `verif-hooks`).
+pub use super::rib::Rib;
+pub use super::unit::RibUnitRunner;
+pub use super::http::PrefixesApi;
